@@ -68,6 +68,37 @@ HOpt(o) == [indent |-> o.indent, width |-> o.width, lb |-> o.lb, enc |-> o.enc, 
             ver |-> o.ver, tags |-> TagSeq(o.tags), canon |-> o.canon, au |-> o.au]
 
 (***************************************************************************)
+(* the LibYAML binding (CEmitter.__init__ / open / serialize in _yaml.pyx):*)
+(* what PyYAML's code hands over to libyaml for an option record.  libyaml *)
+(* itself is an environment (held to H only, through its observed output); *)
+(* what must hold of the binding is that nothing H speaks about is lost or *)
+(* altered on the way (BindingFaithful, checked for every option record).  *)
+(* "unset" = the setter is not called.                                     *)
+(***************************************************************************)
+CPass(o) ==
+  [canonical |-> o.canon,                                                  \* if canonical: yaml_emitter_set_canonical(1)
+   indent    |-> IF o.indent # -1 THEN o.indent ELSE "unset",              \* if indent is not None
+   width     |-> IF o.width # -1 THEN o.width ELSE "unset",                \* if width is not None
+   unicode   |-> o.au,                                                     \* if allow_unicode
+   break     |-> IF o.lb \in {"CR", "LF", "CRLF"} THEN o.lb ELSE "unset",   \* only the three known values are passed
+   startImplicit |-> ~o.es, endImplicit |-> ~o.ee,                         \* document_start_implicit / document_end_implicit
+   version   |-> o.ver, tags |-> TagSeq(o.tags),                           \* every document start event gets use_version / use_tags
+   \* open(): the stream encoding is the requested UTF-16 flavour only when bytes are written (dump_unicode = 0)
+   encoding  |-> IF Sink(o) = "binary" /\ o.enc \in {"utf-16-le", "utf-16-be"} THEN o.enc ELSE "utf-8",
+   \* output_handler: bytes as they come, or decoded to str when the stream has an .encoding / no encoding was requested
+   chunks    |-> IF Sink(o) = "binary" /\ o.enc # "N" THEN "bytes" ELSE "str"]
+BindingFaithful(o) ==
+  LET c == CPass(o)  h == HOpt(o) IN
+  /\ c.canonical = h.canon /\ c.unicode = h.au
+  /\ (h.lb \in {"CR", "LF", "CRLF"} => c.break = h.lb)
+  /\ (2 <= h.indent /\ h.indent <= 9 => c.indent = h.indent)               \* a requested indent in 2..9 arrives as it is
+  /\ (h.es => ~c.startImplicit) /\ (h.ee => ~c.endImplicit)
+  /\ c.version = h.ver /\ c.tags = h.tags
+  /\ (h.stream = "none" => (c.chunks = "bytes") = (h.enc # "N"))            \* clause d: result type
+  /\ (h.stream = "none" /\ h.enc \in {"utf-16-le", "utf-16-be"} => c.encoding = h.enc)
+  /\ (c.chunks = "bytes" => c.encoding = (IF h.enc \in {"utf-16-le", "utf-16-be"} THEN h.enc ELSE "utf-8"))
+
+(***************************************************************************)
 (* scalar kinds                                                            *)
 (***************************************************************************)
 Rep(c, n) == [i \in 1 .. n |-> c]
@@ -86,7 +117,8 @@ Text(k) == CASE k = "w" -> <<"a">>                         \* a word
              [] k = "b" -> <<"a", "n", "a", "n">>          \* literal style requested
              [] k = "f" -> Words \o <<"n">>                \* folded style requested
              [] k = "g" -> <<"a", "n", "n">>               \* literal style requested, keep (+) chomping
-StyleReq(k) == CASE k \in {"b", "g"} -> "|" [] k = "f" -> ">" [] OTHER -> ""
+             [] k = "h" -> <<"a", "n", "a">>               \* literal style requested, strip (-) chomping: no final break
+StyleReq(k) == CASE k \in {"b", "g", "h"} -> "|" [] k = "f" -> ">" [] OTHER -> ""
 \* implicit = (plain resolves to the tag, non-plain resolves to the tag) as the Serializer computes them for str values
 Imp0(ev) == ~ev.t /\ ev.s # "e"
 Imp1(ev) == ~ev.t /\ ev.s # "z"
@@ -574,6 +606,11 @@ Obs == [outcome |-> IF em.crash THEN "exception" ELSE "ok",
 HO == HOpt(opt)
 
 NoCrash == ~em.crash
+\* the Python emitter's normalisation and the LibYAML hand-over agree with what the statement calls the effective values
+Normalised == /\ BestIndent(opt) = H!EffIndent(HO)
+              /\ (opt.lb \in {"CR", "LF", "CRLF"} => BestBreak(opt) = opt.lb)
+              /\ BestWidth(opt) > 2 * BestIndent(opt)
+              /\ (opt.api # "emit" => BindingFaithful(opt))
 HB == Done => H!ClauseB(HO, Obs)
 HC == Done => H!ClauseC(HO, Obs)
 HD == em.st # "stream_start" => H!ClauseD(HO, Obs)
